@@ -49,6 +49,9 @@ def snapshot(obj):
         d["stamps"] = H(obj.timestamps)
     d["proj"] = bool(obj._projected)
     c = copy.deepcopy(obj)   # reading on a copy does not disturb the lazy state of the object under test
+    if c.num_poses == 0:      # cropped to nothing: outside the property's quantifier (1..200 poses); the history ends here
+        d["empty"] = True
+        return d
     try:
         ok, details = c.check()
         pos, quat, poses = np.asarray(c.positions_xyz), np.asarray(c.orientations_quat_wxyz), c.poses_se3
@@ -167,7 +170,7 @@ def impl(case):
                 if k == "project":
                     mops = ["(@Project float %s)" % PLANES[o["plane"]]]
             steps.append({"op": k, "mops": mops, "refused": refused, "snap": snapshot(obj)})
-            if refused:
+            if refused or steps[-1]["snap"].get("empty"):
                 break
     except Exception as e:  # noqa
         import traceback
@@ -185,7 +188,7 @@ def expr(case, out):
         s0 = "(init_pos_quat [%s] [%s] %s)" % ("; ".join(cv3(U(v, 3)) for v in init["pos"]),
                                                  "; ".join(cquat(U(q, 4)) for q in init["quat"]), st)
     mops = [m for s in out.get("steps", []) for m in s["mops"]]
-    return ("map (option_map ser) (run_trace qfm_shep (fun x => newton_cbrt 200 x (nadd x n1)) %s %s [%s])"
+    return ("map (option_map ser) (run_trace qfm_shep (fun x => newton_cbrt 400 x (nadd x n1)) %s %s [%s])"
             % (cf(EPS4), s0, "; ".join(mops)))
 
 
@@ -248,6 +251,8 @@ def judge(case, val, out):
             if s["op"] == "project" and idx < len(mstates) and mstates[idx] is None:
                 return None if si == len(out["steps"]) - 1 else _mv("history continued after a refusal")
             return _sv("operation %s refused: %s" % (s["op"], s["refused"]), step=si)
+        if snap.get("empty"):
+            return None
         if "views_error" in snap:
             return _sv("views cannot be read after %s: %s" % (s["op"], snap["views_error"]), step=si)
         c = consistent_views(snap["views"], scale)
@@ -272,7 +277,8 @@ def judge(case, val, out):
             return _mv("projected flag differs after step %d" % si)
         if mstamps is not None and [float(x) for x in mstamps] != [unhex(x) for x in snap["stamps"]]:
             return _sv("timestamps after step %d (%s) are not those of the documented effect" % (si, s["op"]), step=si)
-        tol = dict(rtol=1e-8, atol=1e-8 * scale)
+        cur = max([scale] + [float(np.abs(U(v, 3)).max()) for v in (snap["views"]["pos"] or [])])
+        tol = dict(rtol=1e-8, atol=1e-8 * cur)
         if mpos is not None:
             a = np.array([[float(x) for x in v] for v in mpos]).reshape(-1, 3)
             b = np.array([U(v, 3) for v in snap["pos"]]).reshape(-1, 3)
@@ -304,15 +310,20 @@ def rand_pose(rng, scale, offset=0.0):
     return p
 
 
-def make_op(rng, name, n, scale, stamps):
+def make_op(rng, name, n, scale, stamps, nmax=None):
     if name in ("rd_pos", "rd_quat", "rd_poses", "rd_derived", "copy"):
         return {"op": name}
     if name.startswith("transform"):
         t = rand_pose(rng, scale)
+        prop = "prop" in name or (name.endswith("right_sim") and bool(rng.random() < 0.5))
         if name.endswith("_sim"):
-            t[:3, :3] *= float(rng.choice([0.5, 2.0, 10.0]))
-        return {"op": "transform", "t": H(t), "right": "right" in name or "prop" in name,
-                "propagate": "prop" in name or (name.endswith("right_sim") and bool(rng.random() < 0.5))}
+            # with propagation the scale compounds along the chain (pose k carries s^k): keep s^n moderate
+            # (nmax = initial pose count, an upper bound of the count at this point of the history)
+            big = (nmax if nmax is not None else n)
+            if prop and big > 16:
+                prop = False
+            t[:3, :3] *= float(rng.choice([0.5, 2.0] if prop else [0.5, 2.0, 10.0]))
+        return {"op": "transform", "t": H(t), "right": "right" in name or "prop" in name, "propagate": prop}
     if name == "scale":
         return {"op": "scale", "s": hexf(float(rng.choice([0.5, 2.0, 1.0, 1e-2, 30.0])))}
     if name == "reduce":
@@ -359,7 +370,7 @@ def build_case(rng, names, n, from_poses, with_stamps):
             nm = "reduce"
         if nm in ("align", "align_scale", "align_only_scale") and cur_n < 3:
             nm = "scale"
-        o = make_op(rng, nm, cur_n, scale, cur_stamps or [0.0, 1.0])
+        o = make_op(rng, nm, cur_n, scale, cur_stamps or [0.0, 1.0], nmax=n)
         if o["op"] == "align":
             o["ref"] = [H(rand_pose(rng, scale, offset)) for _ in range(cur_n)]
         ops.append(o)
